@@ -67,14 +67,20 @@ def layout(text, dollarbar=True):
     where["sect3"] = (text, here()); add("static const char *t_s3 = %s; static int l_s3 = __LINE__; %s" % (E, CM))
     add("static void show(const char *r, const char *t, int l) { size_t i; printf(\"{\\\"region\\\":\\\"%s\\\",\\\"line\\\":%d,\\\"text\\\":[\", r, l);")
     add("  for (i = 0; t && i < strlen(t); i++) printf(\"%s%d\", i ? \",\" : \"\", (unsigned char)t[i]); printf(\"]}\\n\"); }")
+    add("#ifdef VF_HDR")
+    add("extern const char *h_top(void); extern int h_line(void);     /* a second translation unit that sees the %top text through the generated header */")
+    add("#endif")
     add("int main(void) { yy_scan_string(\"abcdf\\n\"); while (yylex()) ; (void)ww_top();")
+    add("#ifdef VF_HDR")
+    add("  show(\"topheader\", h_top(), h_line());")
+    add("#endif")
     add("  show(\"top\", t_top, l_top); show(\"sect1block\", t_s1b, l_s1b); show(\"sect1indent\", t_s1i, l_s1i); show(\"sect2decl\", g_s2, gl_s2);")
     add("  show(\"action\", g_act, gl_act); show(\"actionbrace\", g_brace, gl_brace); show(\"actionbar\", g_bar, gl_bar); if (g_db) show(\"actiondollarbar\", g_db, gl_db); show(\"sect3\", t_s3, l_s3);")
     add("  return 0; }")
     return "\n".join(L) + "\n", where
 
 
-def observe(flexdir, text, noline=False, cfgargs=(), split=False):
+def observe(flexdir, text, noline=False, cfgargs=(), split=False, header=False):
     """split: the specification is given to flex as two input files (flex in.l in2.l), cut in the rules section;
     code of the second file has to be located by its line in that file"""
     wd = tempfile.mkdtemp(prefix="uc.", dir=os.environ.get("VERIF_SCRATCH", "/tmp"))
@@ -89,11 +95,17 @@ def observe(flexdir, text, noline=False, cfgargs=(), split=False):
         where = {r: (t, (ln - cut if ln > cut else ln)) for r, (t, ln) in where.items()}
     else:
         open(lp, "w", encoding="latin-1").write(src)
+    hp = os.path.join(wd, "scan.h"); hc = os.path.join(wd, "hdr.c")
+    if header:
+        # %top blocks are copied to the generated header as well: another translation unit must get the same text
+        cfgargs = list(cfgargs) + ["--header-file=" + hp]
+        open(hc, "w").write('#include "scan.h"\nconst char *h_top(void) { return t_top; }\nint h_line(void) { return l_top; }\n')
+        where["topheader"] = where["top"]
     p = subprocess.run([os.path.join(flexdir, "flex")] + (["-L"] if noline else []) + list(cfgargs) + ["-o", cp] + inputs, stdout=subprocess.PIPE, stderr=subprocess.PIPE,
                        text=True, errors="replace", env=dict(os.environ, LC_ALL="C"), timeout=60)
     flexrc = p.returncode; ccrc = -1; seen = {}; bad = 0; nd = 0; note = p.stderr[:300]
     if flexrc == 0:
-        q = subprocess.run(["gcc", "-w", "-o", exe, cp], stdout=subprocess.PIPE, stderr=subprocess.STDOUT, text=True, errors="replace")
+        q = subprocess.run(["gcc", "-w", "-o", exe, cp] + (["-DVF_HDR", "-I", wd, hc] if header else []), stdout=subprocess.PIPE, stderr=subprocess.STDOUT, text=True, errors="replace")
         ccrc = q.returncode
         if ccrc != 0: note = q.stdout[:400]
         c = open(cp, errors="replace").read().splitlines()
